@@ -135,6 +135,30 @@ Proof.
   replace (e ^ 0) with 1 by reflexivity. replace (e ^ 1) with e by (cbn; lia). split; nia.
 Qed.
 
+(* with the counter of examined entries: bounded by a constant that does not
+   depend on the file, and by the cubic polynomial for small tables *)
+Theorem rsrc_examined_bounded : forall g E, (forall d, length (g d) <= E) -> forall root,
+  (rsrc_entries_examined g root <= N.min (N.of_nat (E * (1 + E + E ^ 2))) (pe_MAX_PE_RESOURCE_DIR_ENTRIES + 1))%N /\
+  (rsrc_entries_examined g root <= pe_MAX_PE_RESOURCE_DIR_ENTRIES + 1)%N.
+Proof.
+  intros g E HE root. destruct (rsrc_walk_bounded g E HE root) as [_ H].
+  unfold rsrc_entries_examined. split; lia.
+Qed.
+
+(* what the self-referential table reaches: the polynomial while it is below
+   the cap, the cap (+ the entry that trips it) from 102 entries per directory on *)
+Theorem rsrc_examined_reached : forall e,
+  rsrc_entries_examined (bomb e) 0 = N.min (N.of_nat (e * (1 + e + e ^ 2))) (pe_MAX_PE_RESOURCE_DIR_ENTRIES + 1) /\
+  (102 <= e -> rsrc_entries_examined (bomb e) 0 = (pe_MAX_PE_RESOURCE_DIR_ENTRIES + 1)%N).
+Proof.
+  intros e. destruct (rsrc_walk_bound_reached e) as [_ H]. unfold rsrc_entries_examined. rewrite H.
+  split; [reflexivity|]. intro He. unfold pe_MAX_PE_RESOURCE_DIR_ENTRIES.
+  replace (e ^ 2) with (e * e) by (cbn; lia).
+  apply N.min_r. rewrite !Nat2N.inj_mul, !Nat2N.inj_add, !Nat2N.inj_mul.
+  assert (102 <= N.of_nat e)%N by lia. change (N.of_nat 1) with 1%N.
+  generalize dependent (N.of_nat e). intros n Hn. nia.
+Qed.
+
 (* summary: iteration counts <= cap, recursion depth <= limit *)
 Theorem bounded_steps :
   (forall n cap, (counted n cap <= cap)%N) /\
@@ -147,5 +171,6 @@ Example caps_example :
   collect 3 (fun x => Nat.even x) [2; 3; 4; 6; 8; 10] [] = [2; 4; 6] /\
   walk 3 0 (Node [Node [Node []]; Node []]) = Some 3 /\
   walk 3 0 (Node [Node [Node [Node []]]]) = None /\
-  rsrc_entries_iterated (bomb 3) 0 = 39.
+  rsrc_entries_iterated (bomb 3) 0 = 39 /\
+  rsrc_entries_examined (bomb 3) 0 = 39%N.
 Proof. vm_compute. repeat split. Qed.
